@@ -69,6 +69,17 @@ CHECKS = {
          "Order asserted for inline code only; Media files as 'each exactly once'. Documents with nowhere to insert are not used. Subclasses define js/css "
          "themselves (pair inheritance is C16).",
          "§4 C04"),
+ "C06": ("fault_enumeration",
+         "exhaustive per-program enumeration of failing user-code invocations on the real library + TLC model checking of the implementation-shaped DjcRenderMachine.tla (Quiescent under every fault point, nested render roots) + TLC validation of the recorded callback order and registry sizes of every run (Trace_C06) + DjcSemantics oracle for the render after a failure",
+         "For every generated program a dry run counts the user-code invocations (get_context_data, inject, on_render_before, template tag, on_render_after) and "
+         "EVERY index is made to raise, with exception classes rotating over str / int / errno / tuple / multi-line first arguments. Observed from outside: the "
+         "very exception object propagates with its class and the component path; all six per-render registries are empty; the Context and a marker value are "
+         "unreachable after gc; the next render equals the reference result; 25 repetitions do not grow the live-object count. DjcRenderMachine.tla models "
+         "prepare -> placeholder -> queue -> template -> post-render with a failing alternative at every event and the error-path cleanup; TLC checks "
+         "Quiescent for all tree shapes / fault points (and refutes the no-cleanup variant as vacuity guard), and validates every recorded run against it.",
+         "Fault points are the user-code hooks named above (slot functions via fills); programs whose fault-free render raises or touches a zone are skipped; "
+         "memory judged by weakrefs + gc object counts with 40 objects tolerance; sampled programs (not exhaustive over programs).",
+         "§4 C06"),
  "C08": ("model_checking",
          "TLC enumeration of documents (segment sequences) of DepsInsert.tla with admissible outputs + implementation-shaped DepsInsertImpl refinement + replay through render_dependencies / middleware + TLC trace validation",
          "DepsInsert.tla specifies Expected(doc, mode) over segments Txt / HeadEnd / BodyEnd / CssPh / JsPh / Marker (markers and placeholders removed, tags at "
